@@ -480,3 +480,35 @@ type TProtoMix4 struct {
 	M map[string]int `plenc:"1"`
 	P map[string]int `plenc:"2,proto"`
 }
+
+// ---- shapes added after the third seeded-change campaign
+
+// the flat option on a slice field selects nothing for its elements
+type TFlatSlice struct {
+	A []int64 `plenc:"1,flat"`
+	B []int8  `plenc:"2,flat"`
+	C int64   `plenc:"3,flat"`
+}
+
+// zero-sized fields share their offset with the next field
+type TZero struct {
+	nc struct{}
+	A  int `plenc:"1"`
+	z  [0]int
+	B  string   `plenc:"2"`
+	S  struct{} `plenc:"-"`
+	C  bool     `plenc:"3"`
+}
+
+// instantiated generic structs
+type KPair[K comparable, V any] struct {
+	K K `plenc:"1"`
+	V V `plenc:"2"`
+}
+
+type TPairSI = KPair[string, int]
+
+type TPairs struct {
+	P KPair[int, string]   `plenc:"1"`
+	Q []KPair[string, int] `plenc:"2"`
+}
